@@ -245,6 +245,32 @@ def _string_to_valid_classname(name: str):
     return re.sub("[^a-zA-Z0-9_]", "_", name)
 
 
+def is_default_document_annotation(type_: "Type") -> bool:
+    """Checks if the given type is the DocumentAnnotation which every type system gets implicitly, i.e. if it was not
+    extended or declared differently by the user.
+
+    Args:
+        type_: The type to check
+    Returns:
+        Returns True if the type is declared exactly like the implicitly added DocumentAnnotation, else False
+    """
+    if type_.name != _DOCUMENT_ANNOTATION_TYPE or type_.description is not None:
+        return False
+    if type_.supertype is None or type_.supertype.name != TYPE_NAME_ANNOTATION:
+        return False
+    features = list(type_.features)
+    if len(features) != 1:
+        return False
+    language = features[0]
+    return (
+        language.name == FEATURE_BASE_NAME_LANGUAGE
+        and language.rangeType.name == TYPE_NAME_STRING
+        and language.elementType is None
+        and language.description is None
+        and language.multipleReferencesAllowed is None
+    )
+
+
 def is_predefined(type_: Union[str, "Type"]) -> bool:
     """Checks if the given type  is predefined by UIMA and by default in a new type system.
 
@@ -1464,7 +1490,7 @@ class TypeSystemSerializer:
                     # that it is found at the same place after loading the descriptor again
                     if typesystem.contains_type(_DOCUMENT_ANNOTATION_TYPE, True):
                         document_annotation = typesystem.get_type(_DOCUMENT_ANNOTATION_TYPE)
-                        if [f.name for f in document_annotation.features] != [FEATURE_BASE_NAME_LANGUAGE]:
+                        if not is_default_document_annotation(document_annotation):
                             redeclared_type_names.add(_DOCUMENT_ANNOTATION_TYPE)
 
                     for predefined_type_name in sorted(redeclared_type_names):
